@@ -2,18 +2,29 @@
 
 P  Lean theorems (lean/MjProof/Props/C33.lean) about the transition-system model lean/MjProof/Model/UserPool.lean of the
    mutex / condition-variable task queue of src/user/user_threadpool.{h,cc}: exactly-once, deadlock freedom, clean
-   shutdown, commutation of tasks that write only their own asset.
+   shutdown, commutation of tasks that write only their own asset; and about the element-survival model
+   lean/MjProof/Model/SpecCopy.lean of the deep copy behind mj_copySpec (the CopyList sequence of mjCModel::operator+=, which
+   silently skips an element whose references do not resolve yet): a CopyList order that is a topological order of the
+   reference edges between element kinds loses no element (copy_lossless, copy_keeps_every_element).
+T  copy order: translate/c33_copyorder.py extracts the CopyList order, the tree lists and the static reference edges from
+   user_model.cc / user_objects.cc / user_mesh.cc on every run; the hypothesis kindOK of copy_lossless is evaluated on them
+   (plus the edges of the generated specs) by the Lean driver, and the model's per-kind surviving-element counts are compared
+   with mj_copySpec of the tree (copy taken before and after the first compile) on every generated spec.
 T  schedule replay: the UNMODIFIED user_threadpool.cc is compiled against a controlled-scheduler shim
    (harness/cc/c33_sched_shim.h: std::mutex / unique_lock / lock_guard / condition_variable / thread replaced through
    `#define std c33std`) and driven by the same schedule tokens as the Lean model; the event traces (lock, unlock, wait
    passes / blocks, notify_one with the woken thread, notify_all, task execution, join, thread exit) must be identical.
 S  (a) the traces of the implementation alone: every task executed exactly once, ctr_ == T when WaitCount returns, mutual
        exclusion, no deadlock, plus real-thread runs with seeded random yields;
-   (b) the compiler through the mjSpec API of the tree (harness/cc/c33_compile.cc): compile twice, compile a mj_copySpec,
-       mj_copyModel, usethread on/off with several procedural meshes and textures, mj_recompile state preservation —
-       bitwise comparison of every mjModel array and of the mj_saveModel byte stream.
+   (b) the compiler through the mjSpec API of the tree (harness/cc/c33_compile.cc): compile twice, compile a mj_copySpec
+       (taken before / after the first compile, and a copy of the copy; element counts per kind of the copies),
+       mj_copyModel, usethread on/off with several procedural meshes and textures, mj_recompile state preservation
+       (unchanged spec, body added, stateful actuator added, body deleted) — bitwise comparison of every mjModel array and
+       of the mj_saveModel byte stream.  The specs carry every element kind the mjSpec API can build without files or
+       plugins and every kind of cross-reference between them (class Rich: each feature is forced at least once per run).
 """
 import itertools
+import json
 import os
 import re
 
@@ -24,15 +35,16 @@ from gen.models import ModelGen
 USES_GEN = False
 
 META = {
-    "technique": "Lean 4 proof (inductive invariant over a transition system with one transition per critical section; 12 transition kinds incl. spurious wake-ups and adversarial notify_one) + exact replay correspondence of the unmodified user_threadpool.cc under a controlled scheduler shim + bitwise compile-determinism oracle through the mjSpec C API",
-    "text": "For the model of ThreadPool in the compiler's usage pattern (construct N >= 1 workers, Schedule T tasks, WaitCount(T), destructor), for all N, T and every interleaving including spurious condition-variable wake-ups and any choice of the thread woken by each notify_one: no task body ever runs twice and no unscheduled task runs; once WaitCount(T) has returned every one of the T tasks has run exactly once, to completion, on the one worker thread that popped it (pool_exactly_once); ctr_ counts finished tasks plus exited workers and WaitCount cannot return before all T tasks are popped (pool_counter); without spurious wake-ups and whichever waiter notify_one picks, some thread can always take a step until the destructor has returned — WaitCount cannot block forever, no wake-up is lost, every join becomes enabled (pool_deadlock_free); when the destructor has returned all workers have exited and the queue is empty (pool_done_clean); a ranking function strictly decreases on every such transition, so no run is longer than 6N + 7T + 4 transitions (pool_bounded_runs) and every run that cannot be extended has returned from the destructor with all T tasks executed exactly once and all workers exited (pool_terminates). Tasks that only replace their own slot of an asset array give the same array under every permutation of the execution order, and any order in which each task < T runs exactly once yields slot i = f_i(old slot i) (asset_tasks_schedule_independent, asset_result_exactly_once).",
-    "note": "Partial by design: the compiler itself (what a mesh / texture task computes, CopyFromSpec, the copy constructors of mjCModel, mj_recompile) is NOT modelled; that mesh and texture tasks write only their own asset is an assumption of asset_tasks_schedule_independent (the exception_ptr / warning-text slots are per-task or mutex-protected in the source, not modelled). One model transition = one critical section (all shared state of ThreadPool is accessed under m_); the hand-written model is tied to the source by replaying identical schedules on the unmodified user_threadpool.cc under the shim (exhaustive short schedules for small N, T + seeded random schedules with picks and spurious wake-ups) — the shim replaces the standard mutex/condition-variable/thread classes, so the memory-model aspects of the real primitives are outside the tie; real-thread runs with random yields check only the observable outcome. With spurious wake-ups runs are not bounded (a waiter may wake spuriously forever), so termination is proved for the relation without them only. Determinism / copy-invariance of compilation is sampled by the oracle only (bitwise over all mjModel arrays); src/xml is stubbed, so specs are built through the mjSpec C API; qhull is stubbed, so mesh geoms are non-colliding (no convex hulls) and builtin cone / wedge meshes cannot be compiled; the LengthRange pool use is not exercised.",
+    "technique": "Lean 4 proof (inductive invariant over a transition system with one transition per critical section; 12 transition kinds incl. spurious wake-ups and adversarial notify_one) + exact replay correspondence of the unmodified user_threadpool.cc under a controlled scheduler shim + Lean proof that a topologically ordered CopyList sequence loses no element, its hypothesis evaluated on the order / reference edges extracted from the source on every run, element-survival correspondence with mj_copySpec + bitwise compile-determinism oracle through the mjSpec C API on specs with every element kind and reference edge",
+    "text": "For the model of ThreadPool in the compiler's usage pattern (construct N >= 1 workers, Schedule T tasks, WaitCount(T), destructor), for all N, T and every interleaving including spurious condition-variable wake-ups and any choice of the thread woken by each notify_one: no task body ever runs twice and no unscheduled task runs; once WaitCount(T) has returned every one of the T tasks has run exactly once, to completion, on the one worker thread that popped it (pool_exactly_once); ctr_ counts finished tasks plus exited workers and WaitCount cannot return before all T tasks are popped (pool_counter); without spurious wake-ups and whichever waiter notify_one picks, some thread can always take a step until the destructor has returned — WaitCount cannot block forever, no wake-up is lost, every join becomes enabled (pool_deadlock_free); when the destructor has returned all workers have exited and the queue is empty (pool_done_clean); a ranking function strictly decreases on every such transition, so no run is longer than 6N + 7T + 4 transitions (pool_bounded_runs) and every run that cannot be extended has returned from the destructor with all T tasks executed exactly once and all workers exited (pool_terminates). Tasks that only replace their own slot of an asset array give the same array under every permutation of the execution order, and any order in which each task < T runs exactly once yields slot i = f_i(old slot i) (asset_tasks_schedule_independent, asset_result_exactly_once). For the model of the deep copy behind mj_copySpec (tree elements copied unconditionally, then one CopyList per non-tree list in a fixed order, each keeping an element iff all its references resolve among the tree elements, the lists copied before and the earlier elements of its own list): if every reference edge between different element kinds goes to a tree kind or to a kind copied strictly earlier (kindOK order tree edges) then, for every source spec whose references use only these edges, name existing elements and are backward inside a list, the copy holds the tree elements followed by every source list whole and in order (copy_lossless), in particular every element (copy_keeps_every_element).",
+    "note": "Partial by design: the compiler itself (what a mesh / texture task computes, CopyFromSpec, the element copy constructors, mj_recompile) is NOT modelled; of the deep copy only WHICH elements survive is modelled (an element = kind, name, referenced (kind, name) pairs; the tree copy by the mjCBody copy constructor, plugins, defaults and keyframe resizing are not), tied to the source by text extraction of the CopyList order / ResetTreeLists / the mjOBJ_* constants reaching FindObject in each ResolveReferences (sensor and tuple look-ups have a free kind: their edges are the ones of the generated specs) and by comparing the surviving-element counts with mj_copySpec on every generated spec; kindOK does NOT hold for the order of the tree: the edges sensor->tuple, sensor->key, tuple->key are against it and forward references inside tuples_ / sensors_ are lost as well — these are genuine losses of mj_copySpec, reproduced on dedicated specs on every run and recorded in known_findings.json (c33:copy-order:*); a further edge against the order is a violation; that mesh and texture tasks write only their own asset is an assumption of asset_tasks_schedule_independent (the exception_ptr / warning-text slots are per-task or mutex-protected in the source, not modelled). One model transition = one critical section (all shared state of ThreadPool is accessed under m_); the hand-written model is tied to the source by replaying identical schedules on the unmodified user_threadpool.cc under the shim (exhaustive short schedules for small N, T + seeded random schedules with picks and spurious wake-ups) — the shim replaces the standard mutex/condition-variable/thread classes, so the memory-model aspects of the real primitives are outside the tie; real-thread runs with random yields check only the observable outcome. With spurious wake-ups runs are not bounded (a waiter may wake spuriously forever), so termination is proved for the relation without them only. Apart from element survival, determinism / copy-invariance of compilation is sampled by the oracle only (bitwise over all mjModel arrays); that a spec edited after a compile is recompiled faithfully (e.g. mjCFrame::Compile keeps the pose of the first compile) is not part of this property — the original, its deep copy and mj_recompile agree; src/xml is stubbed, so specs are built through the mjSpec C API; qhull is stubbed, so mesh geoms are non-colliding (no convex hulls) and builtin cone / wedge meshes cannot be compiled; the LengthRange pool use is not exercised.",
 }
 
 P = "MjProof.C33."
 THEOREMS = [P + t for t in ("pool_exactly_once", "pool_counter", "pool_deadlock_free", "pool_done_clean",
                             "pool_bounded_runs", "pool_terminates",
-                            "asset_tasks_schedule_independent", "asset_result_exactly_once")]
+                            "asset_tasks_schedule_independent", "asset_result_exactly_once",
+                            "copy_lossless", "copy_keeps_every_element")]
 
 
 # ------------------------------------------------------------------------------------------ schedules
@@ -153,9 +165,479 @@ MESH_KINDS = (("SPHERE", lambda r: [r.randint(0, 3)], ("EXACT", "SHELL", "LEGACY
               ("SUPERTORUS", lambda r: [r.randint(4, 14), r.uniform(0.15, 0.6), r.uniform(0.5, 1.5), r.uniform(0.5, 1.5)], ("EXACT", "SHELL")),
               ("PLATE", lambda r: [r.randint(2, 6), r.randint(2, 6)], ("SHELL",)))
 
+TREE_OPS = {"body": "BODY", "joint": "JOINT", "freejoint": "JOINT", "geom": "GEOM", "site": "SITE", "camera": "CAMERA",
+            "light": "LIGHT", "frame": "FRAME"}
+LIST_OPS = {"actuator": "ACTUATOR", "sensor": "SENSOR", "tendon": "TENDON", "equality": "EQUALITY", "pair": "PAIR",
+            "exclude": "EXCLUDE", "key": "KEY", "numeric": "NUMERIC", "text": "TEXT", "tuple": "TUPLE", "mesh": "MESH"}
 
-def gen_case(rng, thorough):
-    prof = {"nbody": (1, 6 if thorough else 4), "keys": 0.8, "mocap": 0.3, "sleep": 0.0}
+
+def K(name):
+    return E("mjOBJ_" + name)
+
+
+def kind_name(code):
+    for n in ("BODY", "JOINT", "GEOM", "SITE", "CAMERA", "LIGHT", "FRAME", "FLEX", "MESH", "SKIN", "HFIELD", "TEXTURE",
+              "MATERIAL", "PAIR", "EXCLUDE", "EQUALITY", "TENDON", "ACTUATOR", "SENSOR", "NUMERIC", "TEXT", "TUPLE", "KEY",
+              "PLUGIN"):
+        if K(n) == code:
+            return n.lower()
+    return "obj%d" % code
+
+
+class Rich:
+    """Adds, to a description produced by gen/models.py, elements of the kinds and with the reference edges the generic
+    generator does not produce (every feature below = one edge of the reference graph between element kinds, or one
+    element kind).  A fixture of three jointed bodies (names x*) guarantees that the prerequisites of every feature exist."""
+
+    def __init__(self, rng, mdl, lines, h0, ntex, nmesh):
+        self.rng, self.mdl, self.L, self.X, self.h = rng, mdl, lines, [], h0
+        self.ntex, self.nmesh = ntex, nmesh
+        self.nu_add = self.na_add = 0
+        self.used = []
+        self.n = 0                       # counter for fresh names
+        L = self.L
+        J, G = lambda t: E("mjJNT_" + t), lambda t: E("mjGEOM_" + t)
+        self.bh = {}                     # body name -> handle
+        for b in mdl.bodies:
+            self.bh[b["name"]] = b["handle"]
+        fx = (("xb1", 0, "HINGE", "SPHERE", [0.06]), ("xb2", "xb1", "SLIDE", "CYLINDER", [0.05, 0.08]), ("xb3", 0, "HINGE", "SPHERE", [0.05]))
+        for i, (bn, par, jt, gt, size) in enumerate(fx):
+            bh, jh, gh, sh = self.newh(), self.newh(), self.newh(), self.newh()
+            ph = 0 if par == 0 else self.bh[par]
+            L += ["body %d %d" % (bh, ph), "name %d %s" % (bh, bn),
+                  "set %d pos %r %r %r" % (bh, rng.uniform(-2, 2), 2.0 + 0.7 * i + rng.uniform(0, 0.2), rng.uniform(0.5, 1.5)),
+                  "joint %d %d" % (jh, bh), "name %d xj%d" % (jh, i + 1), "set %d type %d" % (jh, J(jt)),
+                  "set %d axis %r %r %r" % (jh, rng.uniform(0.2, 1), rng.uniform(-1, 1), rng.uniform(-1, 1)),
+                  "set %d damping %r" % (jh, rng.uniform(0.1, 1.0)),
+                  "geom %d %d" % (gh, bh), "name %d xg%d" % (gh, i + 1), "set %d type %d" % (gh, G(gt)),
+                  "set %d size %s" % (gh, " ".join(repr(x) for x in size)), "set %d contype 0" % gh, "set %d conaffinity 0" % gh,
+                  "site %d %d" % (sh, bh), "name %d xs%d" % (sh, i + 1),
+                  "set %d pos %r %r %r" % (sh, rng.uniform(-.1, .1), rng.uniform(-.1, .1), 0.15)]
+            self.bh[bn] = bh
+        ch = self.newh()
+        L += ["camera %d %d" % (ch, self.bh["xb2"]), "name %d xcam" % ch, "set %d pos 0 0 0.3" % ch]
+        self.bodies = [b["name"] for b in mdl.bodies] + ["xb1", "xb2", "xb3"]
+        self.sjoints = [j["name"] for j in mdl.joints if j["type"] in ("hinge", "slide")] + ["xj1", "xj2", "xj3"]
+        self.joints = [j["name"] for j in mdl.joints] + ["xj1", "xj2", "xj3"]
+        self.sites = [x["name"] for x in mdl.sites] + ["xs1", "xs2", "xs3"]
+        self.geoms = [g["name"] for g in mdl.geoms] + ["xg1", "xg2", "xg3"]
+        self.wrapgeoms = ["xg1", "xg2", "xg3"]
+        self.cams = ["xcam"]
+        self.tendons = [t["name"] for t in mdl.tendons]
+        self.acts = [a["name"] for a in mdl.actuators]
+        self.sensors = [x["name"] for x in mdl.sensors]
+        self.eqs = ["eq1"] if mdl.equalities else []
+        self.tuples, self.flexes, self.numerics = [], [], []
+        self.meshes = ["msh%d" % k for k in range(nmesh)]
+        self.mats = ["mat%d" % k for k in range(ntex)]
+        self.texs = ["tex%d" % k for k in range(ntex)]
+        # the three fixture joints come last in the depth-first joint order: extend the generated keyframe
+        for idx, l in enumerate(L):
+            w = l.split()
+            if len(w) > 3 and w[0] == "set" and w[2] in ("qpos", "qvel") and self.is_key(w[1]):
+                L[idx] = l + " 0.1 -0.05 0.2"
+
+    def is_key(self, h):
+        return any(l == "key " + h for l in self.L)
+
+    def newh(self):
+        self.h += 1
+        return self.h - 1
+
+    def fresh(self, stem):
+        self.n += 1
+        return "%s%d" % (stem, self.n)
+
+    def pick2(self, xs):
+        return self.rng.sample(xs, 2)
+
+    # ---- prerequisites
+    def need_tendon(self, avoid=None):
+        c = [t for t in self.tendons if t != avoid]
+        if c and self.rng.random() < 0.5:
+            return self.rng.choice(c)
+        th, tn = self.newh(), self.fresh("xt")
+        a, b = self.pick2(self.sjoints)
+        self.L += ["tendon %d" % th, "name %d %s" % (th, tn), "wrap %d joint %s %r" % (th, a, self.rng.uniform(0.5, 2)),
+                   "wrap %d joint %s %r" % (th, b, self.rng.uniform(-2, -0.5))]
+        self.tendons.append(tn)
+        return tn
+
+    def need_actuator(self):
+        if self.acts and self.rng.random() < 0.5:
+            return self.rng.choice(self.acts)
+        return self.actuator("JOINT", self.rng.choice(self.sjoints))
+
+    def need_flex(self):
+        if self.flexes:
+            return self.flexes[0]
+        fn, dim = self.fresh("xf"), self.rng.choice((1, 2))
+        self.X.append("flex %s %d %s" % (fn, dim, " ".join(["xb1", "xb2", "xb3"][:dim + 1])))
+        self.flexes.append(fn)
+        return fn
+
+    def actuator(self, trn, target, extra=(), stateful=False):
+        ah, an = self.newh(), self.fresh("xa")
+        self.L += ["actuator %d" % ah, "name %d %s" % (ah, an), "set %d trntype %d" % (ah, E("mjTRN_" + trn)),
+                   "set %d target %s" % (ah, target), "set %d gear %r" % (ah, self.rng.uniform(0.5, 2))]
+        self.L += [x % ah for x in extra]
+        if stateful:
+            self.L += ["set %d dyntype %d" % (ah, E("mjDYN_INTEGRATOR"))]
+            self.na_add += 1
+        self.nu_add += 1
+        self.acts.append(an)
+        return an
+
+    def sensor(self, typ, objtype=None, objname=None, reftype=None, refname=None, extra=()):
+        sh, sn = self.newh(), self.fresh("xsens")
+        self.L += ["sensor %d" % sh, "name %d %s" % (sh, sn), "set %d type %d" % (sh, E("mjSENS_" + typ))]
+        if objtype:
+            self.L += ["set %d objtype %d" % (sh, K(objtype)), "set %d objname %s" % (sh, objname)]
+        if reftype:
+            self.L += ["set %d reftype %d" % (sh, K(reftype)), "set %d refname %s" % (sh, refname)]
+        self.L += [x % sh for x in extra]
+        self.sensors.append(sn)
+        return sn
+
+    USER = ("set %%d dim %d", "set %%d datatype %d", "set %%d needstage %d")
+
+    def user_sensor(self, objtype, objname):
+        return self.sensor("USER", objtype, objname,
+                           extra=(self.USER[0] % self.rng.randint(1, 3), self.USER[1] % E("mjDATATYPE_REAL"),
+                                  self.USER[2] % E(self.rng.choice(("mjSTAGE_POS", "mjSTAGE_VEL", "mjSTAGE_ACC")))))
+
+    def equality(self, typ, objtype, n1, n2=None, data=None):
+        eh, en = self.newh(), self.fresh("xeq")
+        self.L += ["equality %d" % eh, "name %d %s" % (eh, en), "set %d type %d" % (eh, E("mjEQ_" + typ)),
+                   "set %d objtype %d" % (eh, K(objtype)), "set %d name1 %s" % (eh, n1)]
+        if n2:
+            self.L.append("set %d name2 %s" % (eh, n2))
+        if data:
+            self.L.append("set %d data %s" % (eh, data))
+        self.eqs.append(en)
+        return en
+
+    def tuple_(self, entries):
+        tn = self.fresh("xtup")
+        self.X.append("tuple %s %s" % (tn, " ".join("%d %s %r" % (K(k), n, self.rng.uniform(0, 1)) for k, n in entries)))
+        self.tuples.append(tn)
+        return tn
+
+    # ---- features: one edge of the reference graph (or one element kind) each
+    def f_eq_tendon(self):
+        a = self.need_tendon()
+        b = self.need_tendon(avoid=a) if self.rng.random() < 0.6 else None
+        self.equality("TENDON", "TENDON", a, b if b != a else None, "0 1 0 0 0")
+
+    def f_eq_site(self):
+        a = self.rng.choice(("xs1", "xs2", "xs3"))          # at least one side on a jointed body
+        b = self.rng.choice([x for x in self.sites if x != a])
+        if self.rng.random() < 0.5:
+            self.equality("CONNECT", "SITE", a, b)
+        else:
+            self.equality("WELD", "SITE", a, b, "0 0 0 0 0 0 1 0 0 0 1")
+
+    def f_eq_joint(self):
+        a, b = self.pick2(self.sjoints)
+        self.equality("JOINT", "JOINT", a, b if self.rng.random() < 0.7 else None, "0.1 1 0 0 0")
+
+    def f_eq_body(self):
+        a = self.rng.choice(("xb1", "xb2", "xb3"))          # at least one side jointed
+        b = self.rng.choice([x for x in self.bodies if x != a])
+        self.equality("CONNECT", "BODY", a, b if self.rng.random() < 0.6 else None, "0.01 0.02 0.03")
+
+    def f_eq_flex(self):
+        self.equality("FLEX", "FLEX", self.need_flex())
+
+    def f_flex(self):
+        self.need_flex()
+
+    def f_act_tendon(self):
+        self.actuator("TENDON", self.need_tendon(), stateful=self.rng.random() < 0.4)
+
+    def f_act_site(self):
+        a, b = self.pick2(self.sites)
+        ex = ("set %%d refsite %s" % b, "set %d gear 1 0 0.5 0 0.2 0") if self.rng.random() < 0.6 else ("set %d gear 0 1 0 0.3 0 0",)
+        self.actuator("SITE", a, ex)
+
+    def f_act_body(self):
+        self.actuator("BODY", self.rng.choice(self.bodies), ("set %d ctrllimited " + str(E("mjLIMITED_TRUE")), "set %d ctrlrange 0 1"))
+
+    def f_act_slidercrank(self):
+        a, b = self.pick2(self.sites)
+        self.actuator("SLIDERCRANK", a, ("set %%d slidersite %s" % b, "set %%d cranklength %r" % self.rng.uniform(0.1, 0.5)))
+
+    def f_act_jointinparent(self):
+        self.actuator("JOINTINPARENT", self.rng.choice(self.joints if self.rng.random() < 0.5 else self.sjoints))
+
+    def f_sens_tendon(self):
+        self.sensor(self.rng.choice(("TENDONPOS", "TENDONVEL")), "TENDON", self.need_tendon())
+
+    def f_sens_actuator(self):
+        self.sensor(self.rng.choice(("ACTUATORPOS", "ACTUATORVEL", "ACTUATORFRC")), "ACTUATOR", self.need_actuator())
+
+    def f_sens_joint(self):
+        self.sensor(self.rng.choice(("JOINTPOS", "JOINTVEL", "JOINTACTFRC")), "JOINT", self.rng.choice(self.sjoints))
+
+    def f_sens_frame(self):
+        ot, on = self.rng.choice((("GEOM", self.geoms), ("CAMERA", self.cams), ("BODY", self.bodies), ("XBODY", self.bodies), ("SITE", self.sites)))
+        ref = self.rng.choice((None, ("CAMERA", self.cams), ("GEOM", self.geoms), ("BODY", self.bodies), ("XBODY", self.bodies), ("SITE", self.sites)))
+        typ = self.rng.choice(("FRAMEPOS", "FRAMEQUAT", "FRAMEZAXIS", "FRAMELINVEL", "FRAMEANGVEL") if ref else
+                              ("FRAMEPOS", "FRAMEQUAT", "FRAMELINACC", "FRAMEANGACC"))
+        self.sensor(typ, ot, self.rng.choice(on), ref[0] if ref else None, self.rng.choice(ref[1]) if ref else None)
+
+    def f_sens_subtree(self):
+        self.sensor(self.rng.choice(("SUBTREECOM", "SUBTREELINVEL", "SUBTREEANGMOM")), "BODY", self.rng.choice(self.bodies))
+
+    def f_sens_user(self):
+        opts = [("JOINT", self.joints), ("GEOM", self.geoms), ("BODY", self.bodies), ("SITE", self.sites), ("CAMERA", self.cams),
+                ("TENDON", [self.need_tendon()]), ("ACTUATOR", [self.need_actuator()])]
+        for k, xs in (("EQUALITY", self.eqs), ("MATERIAL", self.mats), ("TEXTURE", self.texs), ("MESH", self.meshes),
+                      ("NUMERIC", self.numerics), ("SENSOR", self.sensors), ("FLEX", self.flexes)):
+            if xs:
+                opts.append((k, xs))
+        k, xs = self.rng.choice(opts)
+        self.user_sensor(k, self.rng.choice(xs))
+
+    def f_wrap_geom(self):
+        th, tn = self.newh(), self.fresh("xt")
+        g = self.rng.choice(self.wrapgeoms)
+        side = {"xg1": "xs1", "xg2": "xs2", "xg3": "xs3"}[g] if self.rng.random() < 0.5 else "~"
+        ends = [s for s in ("xs1", "xs2", "xs3") if s != side]
+        self.L += ["tendon %d" % th, "name %d %s" % (th, tn), "wrap %d site %s" % (th, ends[0]),
+                   "wrap %d geom %s %s" % (th, g, side), "wrap %d site %s" % (th, ends[1])]
+        if self.rng.random() < 0.4:
+            a, b = self.pick2(self.sites)
+            self.L += ["wrap %d pulley %r" % (th, self.rng.choice((1.0, 2.0))), "wrap %d site %s" % (th, a), "wrap %d site %s" % (th, b)]
+        self.tendons.append(tn)
+
+    def f_tuple(self):
+        opts = [("BODY", self.bodies), ("GEOM", self.geoms), ("SITE", self.sites), ("JOINT", self.joints), ("CAMERA", self.cams)]
+        for k, xs in (("TENDON", self.tendons), ("ACTUATOR", self.acts), ("SENSOR", self.sensors), ("EQUALITY", self.eqs),
+                      ("MATERIAL", self.mats), ("TEXTURE", self.texs), ("MESH", self.meshes), ("NUMERIC", self.numerics),
+                      ("TUPLE", self.tuples), ("FLEX", self.flexes)):
+            if xs:
+                opts += [(k, xs)] * 2
+        ent = []
+        for _ in range(self.rng.randint(1, 4)):
+            k, xs = self.rng.choice(opts)
+            ent.append((k, self.rng.choice(xs)))
+        self.tuple_(ent)
+
+    def f_skin(self):
+        a, b = self.pick2(self.bodies)
+        self.X.append("skin %s %s %s %s" % (self.fresh("xskin"), a, b, self.rng.choice(self.mats) if self.mats and self.rng.random() < 0.5 else "~"))
+
+    def f_hfield(self):
+        hn, gh, gn = self.fresh("xhf"), self.newh(), self.fresh("xhg")
+        self.X.append("hfield %s %d %d %d" % (hn, self.rng.randint(2, 9), self.rng.randint(2, 9), self.rng.randint(1, 10 ** 6)))
+        self.L += ["geom %d 0" % gh, "name %d %s" % (gh, gn), "set %d type %d" % (gh, E("mjGEOM_HFIELD")),
+                   "set %d pos -4 -4 0" % gh, "set %d contype 0" % gh, "set %d conaffinity 0" % gh]
+        self.X.append("geomstr %s hfieldname %s" % (gn, hn))
+
+    def f_geom_material(self):
+        if self.mats:
+            self.X.append("geomstr %s material %s" % (self.rng.choice(self.geoms), self.rng.choice(self.mats)))
+        else:
+            self.f_text()
+
+    def f_text(self):
+        th = self.newh()
+        self.L += ["text %d" % th, "name %d %s" % (th, self.fresh("xtxt")), "set %d data payload%d" % (th, self.rng.randint(0, 999))]
+
+    def f_numeric(self):
+        nh, nn = self.newh(), self.fresh("xnum")
+        k = self.rng.randint(1, 5)
+        self.L += ["numeric %d" % nh, "name %d %s" % (nh, nn), "set %d size %d" % (nh, k),
+                   "set %d data %s" % (nh, " ".join(repr(self.rng.uniform(-1, 1)) for _ in range(self.rng.randint(1, k))))]
+        self.numerics.append(nn)
+
+    def f_light(self):
+        lh, b = self.newh(), self.rng.choice(self.bodies)
+        self.L += ["light %d %d" % (lh, self.bh[b]), "name %d %s" % (lh, self.fresh("xl")), "set %d pos 0 0 1" % lh, "set %d dir 0.1 0 -1" % lh]
+        if self.rng.random() < 0.5:
+            self.L += ["set %d mode %d" % (lh, E("mjCAMLIGHT_TARGETBODY")), "set %d targetbody %s" % (lh, self.rng.choice([x for x in self.bodies if x != b]))]
+
+    def f_camera_target(self):
+        ch, b, cn = self.newh(), self.rng.choice(self.bodies), self.fresh("xc")
+        self.L += ["camera %d %d" % (ch, self.bh[b]), "name %d %s" % (ch, cn), "set %d pos 0.2 0 0.4" % ch,
+                   "set %d mode %d" % (ch, E(self.rng.choice(("mjCAMLIGHT_TARGETBODY", "mjCAMLIGHT_TARGETBODYCOM")))),
+                   "set %d targetbody %s" % (ch, self.rng.choice([x for x in self.bodies if x != b]))]
+        self.cams.append(cn)
+
+    def f_frames(self):
+        b = self.rng.choice(self.bodies)
+        bh = self.bh[b]
+        q = [self.rng.gauss(0, 1) for _ in range(4)]
+        f1 = self.newh()
+        self.L += ["frame %d %d" % (f1, bh), "name %d %s" % (f1, self.fresh("xfr")),
+                   "set %d pos %r %r %r" % (f1, self.rng.uniform(-.2, .2), self.rng.uniform(-.2, .2), self.rng.uniform(-.2, .2)),
+                   "set %d quat %r %r %r %r" % (f1, q[0] + 2, q[1], q[2], q[3])]
+        fr = f1
+        if self.rng.random() < 0.5:
+            f2 = self.newh()
+            self.L += ["frame %d %d" % (f2, bh), "name %d %s" % (f2, self.fresh("xfr")), "setframe %d %d" % (f2, f1),
+                       "set %d pos 0.05 -0.02 0.1" % f2, "set %d alt.type %d" % (f2, E("mjORIENTATION_EULER")),
+                       "set %d alt.euler %r %r 0.3" % (f2, self.rng.uniform(-1, 1), self.rng.uniform(-1, 1))]
+            fr = f2
+        gh, gn, sh, sn = self.newh(), self.fresh("xfg"), self.newh(), self.fresh("xfs")
+        self.L += ["geom %d %d" % (gh, bh), "name %d %s" % (gh, gn), "set %d size 0.03" % gh, "set %d contype 0" % gh,
+                   "set %d conaffinity 0" % gh, "set %d pos 0.1 0 0" % gh, "setframe %d %d" % (gh, fr),
+                   "site %d %d" % (sh, bh), "name %d %s" % (sh, sn), "set %d pos 0 0.1 0" % sh, "setframe %d %d" % (sh, self.rng.choice((f1, fr)))]
+        self.geoms.append(gn)
+        self.sites.append(sn)
+
+    def f_defaults(self):
+        c1, c2 = self.fresh("xcls"), self.fresh("xcls")
+        self.X += ["default %s ~ %d" % (c1, self.rng.randint(1, 10 ** 6)), "default %s %s %d" % (c2, c1, self.rng.randint(1, 10 ** 6)),
+                   "setdefault %d %s %s" % (K("GEOM"), self.rng.choice(self.geoms), self.rng.choice((c1, c2))),
+                   "setdefault %d %s %s" % (K("JOINT"), self.rng.choice(self.joints), c2)]
+        self.L.append("set %d childclass %s" % (self.bh[self.rng.choice(self.bodies)], c1))
+
+    def f_pair(self):
+        # one geom of a jointed fixture body, one of another body (a pair inside one static body is an engine error)
+        a = self.rng.choice(("xg1", "xg3"))
+        b = self.rng.choice([g for g in self.geoms if g != a])
+        ph = self.newh()
+        self.L += ["pair %d" % ph, "name %d %s" % (ph, self.fresh("xpair")), "set %d geomname1 %s" % (ph, a), "set %d geomname2 %s" % (ph, b)]
+
+    def f_exclude(self):
+        a, b = self.pick2(self.bodies)
+        xh = self.newh()
+        self.L += ["exclude %d" % xh, "name %d %s" % (xh, self.fresh("xexc")), "set %d bodyname1 %s" % (xh, a), "set %d bodyname2 %s" % (xh, b)]
+
+    def f_key(self):
+        kh = self.newh()
+        self.L += ["key %d" % kh, "name %d %s" % (kh, self.fresh("xkey")), "set %d time %r" % (kh, self.rng.uniform(0, 3))]
+
+    # ---- references the deep copy is known to lose (dedicated cases only; see known_findings.json)
+    def late_sensor_tuple(self):
+        self.user_sensor("TUPLE", self.tuple_([("BODY", self.rng.choice(self.bodies))]))
+
+    def late_sensor_key(self):
+        self.f_key()
+        self.user_sensor("KEY", "xkey%d" % self.n)
+
+    def late_tuple_key(self):
+        self.f_key()
+        self.tuple_([("KEY", "xkey%d" % self.n), ("SITE", self.rng.choice(self.sites))])
+
+    def late_tuple_forward(self):
+        later = "xtup%d" % (self.n + 2)
+        self.tuple_([("TUPLE", later)])
+        self.tuple_([("GEOM", self.rng.choice(self.geoms))])
+
+    def late_sensor_forward(self):
+        later = "xsens%d" % (self.n + 2)
+        self.user_sensor("SENSOR", later)
+        self.sensor("CLOCK")
+
+    def finish(self):
+        # the added actuators come after the generated ones: extend ctrl / act of the generated keyframe
+        for idx, l in enumerate(self.L):
+            w = l.split()
+            if len(w) > 3 and w[0] == "set" and self.is_key(w[1]):
+                if w[2] == "ctrl" and self.nu_add:
+                    self.L[idx] = l + " 0.0" * self.nu_add
+                if w[2] == "act" and self.na_add:
+                    self.L[idx] = l + " 0.0" * self.na_add
+
+
+FEATURES = sorted(n[2:] for n in dir(Rich) if n.startswith("f_"))
+LATE = sorted(n for n in dir(Rich) if n.startswith("late_"))
+
+
+def ref_table(lines, extras, ntex):
+    """(kind code, name, [(kind code, name)]) of every element of the spec the harness builds from this text, in list order
+    per kind — the input of the Lean model of the deep copy.  XBODY references are BODY references."""
+    H, order = {}, []
+    world = {"kind": "BODY", "name": "world", "f": {}, "wraps": []}
+    order.append(world)
+    for l in lines:
+        w = l.split()
+        if not w:
+            continue
+        op = w[0]
+        if op in TREE_OPS or op in LIST_OPS:
+            H[w[1]] = {"kind": TREE_OPS.get(op) or LIST_OPS[op], "name": None, "f": {}, "wraps": []}
+            order.append(H[w[1]])
+        elif op == "name":
+            H[w[1]]["name"] = w[2]
+        elif op == "set" and w[1] in H:
+            H[w[1]]["f"][w[2]] = w[3:]
+        elif op == "wrap":
+            H[w[1]]["wraps"].append(w[2:])
+    for i in range(ntex):
+        order.append({"kind": "TEXTURE", "name": "tex%d" % i, "f": {}, "wraps": []})
+        order.append({"kind": "MATERIAL", "name": "mat%d" % i, "f": {}, "wraps": []})
+    xrefs = {}
+    for l in extras:
+        w = l.split()
+        if w[0] == "tuple":
+            e = {"kind": "TUPLE", "name": w[1], "f": {}, "wraps": []}
+            xrefs[id(e)] = [(int(w[i]), w[i + 1]) for i in range(2, len(w), 3)]
+            order.append(e)
+        elif w[0] == "skin":
+            e = {"kind": "SKIN", "name": w[1], "f": {}, "wraps": []}
+            xrefs[id(e)] = [(K("BODY"), w[2]), (K("BODY"), w[3])]
+            order.append(e)
+        elif w[0] == "flex":
+            e = {"kind": "FLEX", "name": w[1], "f": {}, "wraps": []}
+            xrefs[id(e)] = [(K("BODY"), b) for b in w[3:]]
+            order.append(e)
+        elif w[0] == "hfield":
+            order.append({"kind": "HFIELD", "name": w[1], "f": {}, "wraps": []})
+    out = []
+    for n, e in enumerate(order):
+        f, k, refs = e["f"], e["kind"], []
+        one = lambda key: f[key][0] if key in f and f[key][0] != "~" else None
+        if id(e) in xrefs:
+            refs = xrefs[id(e)]
+        elif k == "PAIR":
+            refs = [(K("GEOM"), one("geomname1")), (K("GEOM"), one("geomname2"))]
+        elif k == "EXCLUDE":
+            refs = [(K("BODY"), one("bodyname1")), (K("BODY"), one("bodyname2"))]
+        elif k == "EQUALITY":
+            t = int(one("type") or 0)
+            ot = {E("mjEQ_JOINT"): K("JOINT"), E("mjEQ_TENDON"): K("TENDON"), E("mjEQ_FLEX"): K("FLEX"),
+                  E("mjEQ_FLEXVERT"): K("FLEX"), E("mjEQ_FLEXSTRAIN"): K("FLEX")}.get(t) or int(one("objtype") or K("BODY"))
+            refs = [(ot, one("name1")), (ot, one("name2"))]
+        elif k == "ACTUATOR":
+            t = int(one("trntype") or 0)
+            if t in (E("mjTRN_JOINT"), E("mjTRN_JOINTINPARENT")):
+                refs = [(K("JOINT"), one("target"))]
+            elif t == E("mjTRN_SLIDERCRANK"):
+                refs = [(K("SITE"), one("slidersite")), (K("SITE"), one("target"))]
+            elif t == E("mjTRN_TENDON"):
+                refs = [(K("TENDON"), one("target"))]
+            elif t == E("mjTRN_SITE"):
+                refs = [(K("SITE"), one("refsite")), (K("SITE"), one("target"))]
+            elif t == E("mjTRN_BODY"):
+                refs = [(K("BODY"), one("target"))]
+        elif k == "SENSOR":
+            if int(one("objtype") or 0):
+                refs.append((int(one("objtype")), one("objname")))
+            if int(one("reftype") or 0):
+                refs.append((int(one("reftype")), one("refname")))
+        elif k == "TENDON":
+            for wr in e["wraps"]:
+                if wr[0] == "joint":
+                    refs.append((K("JOINT"), wr[1]))
+                elif wr[0] == "site":
+                    refs.append((K("SITE"), wr[1]))
+                elif wr[0] == "geom":
+                    refs.append((K("GEOM"), wr[1]))
+                    if len(wr) > 2 and wr[2] != "~":
+                        refs.append((K("SITE"), wr[2]))
+        refs = [(K("BODY") if a == K("XBODY") else a, b) for a, b in refs if b is not None]
+        out.append((K(k), e["name"] if e["name"] is not None else "#%d" % n, refs))
+    return out
+
+
+def gen_case(rng, thorough, focus=(), late=None):
+    """one case: (text, nmesh, ntex, features used, reference table)"""
+    prof = {"nbody": (1, 6 if thorough else 3), "keys": 0.8, "mocap": 0.3, "sleep": 0.0, "tendons": 0.5, "equalities": 0.4,
+            "sites": 0.8, "cameras": 0.3, "pairs": 0.2, "excludes": 0.2}
     mdl = ModelGen(rng, prof).make()
     lines = list(mdl.lines)
     h = 3000
@@ -180,14 +662,203 @@ def gen_case(rng, thorough):
     if rng.random() < 0.2:
         lines.append("compiler usethread 0")
     ntex = rng.choice((0, 1, 2, 3, 5, 8))
-    head = "case %d %d %d" % (ntex, rng.randint(1, 2 ** 31 - 1), rng.randint(0, 30))
-    return head + "\n" + "\n".join(lines) + "\nend\n", nmesh, ntex
+    used, extras = [], []
+    plain = not focus and late is None and rng.random() < 0.15       # a few cases exactly as the generic generator makes them
+    if not plain:
+        r = Rich(rng, mdl, lines, h, ntex, nmesh)
+        todo = list(focus) + [f for f in FEATURES if f not in focus and rng.random() < (0.2 if late is None else 0.08)]
+        rng.shuffle(todo)
+        for f in todo:
+            getattr(r, "f_" + f)()
+        if late:
+            getattr(r, late)()
+            todo.append(late)
+        r.finish()
+        used, extras = todo, r.X
+    head = "case %d %d %d x" % (ntex, rng.randint(1, 2 ** 31 - 1), rng.randint(0, 30))
+    text = head + "\n" + "\n".join(lines) + "\nend\n" + "".join(x + "\n" for x in extras) + "xend\n"
+    return text, nmesh, ntex, used, ref_table(lines, extras, ntex)
+
+
+def parse_counts(txt):
+    return {} if txt in ("-", "") else {int(a): int(b) for a, b in (x.split(":") for x in txt.split(","))}
+
+
+def copy_line(cm, table):
+    """op line of the Lean model for one spec: names are coded as numbers per kind"""
+    code = {}
+    nm = lambda k, n: code.setdefault((k, n), len(code) + 1)
+    words = []
+    for k, n, refs in table:
+        rs = refs if cm["skips"] else []
+        words.append("%d:%d:%s" % (k, nm(k, n), "+".join("%d.%d" % (a, nm(a, b)) for a, b in rs)))
+    csv = lambda xs: ",".join(str(x) for x in xs) or "-"
+    return "copy %s | %s | %s" % (csv(cm["order"]), csv(cm["tree"]), " ".join(words)), {v: k for k, v in code.items()}
+
+
+def compile_part(ctx, drv, comp):
+    from translate import c33_copyorder
+    thorough = ctx.tier == "thorough"
+    rng = ctx.rng
+    # ---- the translator tie: order of the CopyList calls, tree lists and static reference edges of THIS tree
+    cm = None
+    try:
+        ex = c33_copyorder.extract(common.REPO)
+        cm = {"order": [E(k) for k in ex["order"]], "tree": [E(k) for k in ex["tree"]], "skips": ex["skips"],
+              "static": sorted({(E(a), E(b)) for a, b in ex["edges"] if a not in ex["tree"]})}
+        ctx.oblige("extraction of the CopyList order, the tree lists and the reference edges from src/user/user_model.cc, "
+                   "user_objects.cc, user_mesh.cc", "translator", True)
+        ctx.extra["copy_order_extracted"] = {"order": ex["order"], "tree": ex["tree"], "static_edges": ["%s>%s" % e for e in ex["edges"]],
+                                             "dynamic_lookups": ["%s:%s" % tuple(d) for d in ex["dynamic"]],
+                                             "CopyList_skips_unresolved": ex["skips"]}
+    except (c33_copyorder.ExtractError, OSError, KeyError) as e:
+        ctx.oblige("extraction of the CopyList order, the tree lists and the reference edges from src/user/user_model.cc, "
+                   "user_objects.cc, user_mesh.cc", "translator", False, repr(e))
+    # ---- cases: every feature forced at least once (two per case), a few generic ones, one per known-lossy reference
+    feats = list(FEATURES)
+    rng.shuffle(feats)
+    plan = [tuple(feats[i:i + 2]) for i in range(0, len(feats), 2)]
+    cases = [gen_case(rng, thorough, focus=f) for f in plan]
+    cases += [gen_case(rng, thorough) for _ in range(260 if thorough else 3)]
+    nlate = 0
+    for rep in range(6 if thorough else 1):
+        for lt in LATE:
+            cases.append(gen_case(rng, thorough, late=lt))
+            nlate += 1
+    fh, eh = {}, {}
+    for c in cases:
+        for f in c[3]:
+            fh[f] = fh.get(f, 0) + 1
+        for k, n, refs in c[4]:
+            for a, b in refs:
+                e = "%s>%s" % (kind_name(k), kind_name(a))
+                eh[e] = eh.get(e, 0) + 1
+    ctx.extra["compile_case_features"] = fh
+    ctx.extra["reference_edges_generated"] = eh
+    text = "".join(c[0] for c in cases)
+    r = common.sh([comp], inp=text, timeout=3000)
+    outs = r.stdout.split("\n")
+    if outs and outs[-1] == "":
+        outs.pop()
+    hist = {"ok": 0, "error": 0, "diff": 0}
+    pooled = 0
+    if r.returncode != 0 or len(outs) != len(cases):
+        hang = bool(outs) and outs[-1] == "TIMEOUT"
+        idx = min(len(outs) - (1 if hang else 0), len(cases) - 1)
+        ctx.oracle_failure("c33:compile:hang" if hang else "c33:compile:crash",
+                           ("mj_compile did not return within 120 s on case %d (asset thread pool dead-locked?)" % idx) if hang
+                           else "c33_compile crashed (rc=%s) on case %d" % (r.returncode, idx),
+                           {"case": cases[idx][0][:12000], "stderr": r.stderr[-500:],
+                            "replay": "feed the case text to <c33_compile harness>"})
+        return
+    # ---- the Lean model of the deep copy on the same specs, with the order extracted from this tree
+    model = [None] * len(cases)
+    known = {k["key"] for k in ctx.known()}
+    if cm and drv:
+        observed = sorted({(k, a) for c in cases for k, n, refs in c[4] for a, b in refs if k not in cm["tree"]})
+        edges = sorted(set(cm["static"]) | set(observed))
+        csv = lambda xs: ",".join(str(x) for x in xs) or "-"
+        lines = ["kindok %s | %s | %s" % (csv(cm["order"]), csv(cm["tree"]), ",".join("%d>%d" % e for e in edges) or "-")]
+        decode = []
+        for c in cases:
+            l, dec = copy_line(cm, c[4])
+            lines.append(l)
+            decode.append(dec)
+        rc, mo, err = ctx.run_lines([drv], lines)
+        if rc != 0 or len(mo) != len(lines) or "bad-op" in mo:
+            raise common.Infra("drv_c33 failed on the copy ops: rc=%s %s %s" % (rc, err[-300:], [l[:200] for l, o in zip(lines, mo) if o == "bad-op"][:2]))
+        bad = [] if mo[0] == "ok" or not cm["skips"] else [tuple(int(x) for x in e.split(">")) for e in mo[0].split()[1].split(",")]
+        badkeys = ["c33:copy-order:%s->%s" % (kind_name(a), kind_name(b)) for a, b in bad]
+        ctx.extra["copy_order_edges_not_topological"] = badkeys
+        ctx.oblige("hypothesis kindOK of copy_lossless: the CopyList order of the tree is a topological order of the %d reference "
+                   "edges between element kinds (static + generated), except the edges recorded as known findings" % len(edges),
+                   "hypothesis", all(k in known for k in badkeys), "edges against the order: " + ", ".join(badkeys))
+        for idx in range(len(cases)):
+            m = re.match(r"kept (\S+) dropped (\S+)$", mo[idx + 1])
+            dropped = [] if m.group(2) == "-" else [tuple(int(x) for x in d.split(".")) for d in m.group(2).split(",")]
+            model[idx] = {"kept": parse_counts(m.group(1)), "dropped": [(k, decode[idx][n][1]) for k, n in dropped]}
+    # ---- correspondence (element counts of the copies) and oracle
+    mism, gen_bad = [], []
+    for idx, ((ctext, nmesh, ntex, used, table), o) in enumerate(zip(cases, outs)):
+        ctx.count(ctext)
+        status, _, cnt = o.partition(" # ")
+        if status.startswith("error") or not cnt:
+            hist["error"] += 1
+            ctx.extra.setdefault("compile_errors", []).append(("%s: " % ",".join(used)) + o[:160])
+            continue
+        m = re.match(r"src=(\S+) copy=(\S+) copy0=(\S+)$", cnt)
+        src, cp, cp0 = (parse_counts(m.group(i)) for i in (1, 2, 3))
+        mine = {}
+        for k, n, refs in table:
+            mine[k] = mine.get(k, 0) + 1
+        if any(src.get(k, 0) != v for k, v in mine.items()) or sum(src.values()) != sum(mine.values()):
+            gen_bad.append({"case": idx, "harness": src, "table": mine})
+        explained = None
+        if model[idx]:
+            kept = model[idx]["kept"]
+            agree = all(cp.get(k) == v and cp0.get(k) == v for k, v in kept.items()) if cp and cp0 else False
+            if not agree:
+                mism.append({"case": idx, "features": used, "model_kept": kept, "impl_copy": cp, "impl_copy0": cp0,
+                             "text": ctext[:4000]})
+            elif model[idx]["dropped"]:
+                # the loss is the one the model derives from the order of the CopyList calls: name the edge
+                pos = {k: i for i, k in reversed(list(enumerate(cm["order"])))}
+                edge = None
+                for dk, dn in model[idx]["dropped"]:
+                    refs = [rf for k, n, rf in table if k == dk and n == dn][0]
+                    late = [a for a, b in refs if a not in cm["tree"] and (a == dk or pos.get(a, 10 ** 6) >= pos.get(dk, -1))]
+                    if late and not edge:
+                        edge = "%s->%s" % (kind_name(dk), kind_name(late[0]))
+                k0 = model[idx]["dropped"][0][0]
+                if not edge:
+                    edge = kind_name(k0) + ("-not-copied" if k0 not in cm["order"] and k0 not in cm["tree"] else "->?")
+                explained = ("c33:copy-order:" + edge,
+                             ", ".join("%s '%s'" % (kind_name(k), n) for k, n in model[idx]["dropped"]))
+        if status.startswith("ok"):
+            hist["ok"] += 1
+            if "simerror=1" in status:
+                ctx.extra["compile_cases_with_engine_error_while_stepping"] = ctx.extra.get("compile_cases_with_engine_error_while_stepping", 0) + 1
+            mm = re.search(r"pooltasks=(\d+)", status)
+            if mm and int(mm.group(1)) >= 2:
+                pooled += 1
+            if explained:
+                mism.append({"case": idx, "note": "model predicts a loss, the harness reports none", "model": model[idx]})
+        elif status.startswith("DIFF"):
+            hist["diff"] += 1
+            items = status.split()[1:]
+            rep = {"case": ctext[:12000], "impl_output": o, "features": used,
+                   "replay": "feed the case text to <c33_compile harness>"}
+            if explained:
+                ctx.oracle_failure(explained[0], "mj_copySpec silently drops %s (its reference is resolved before the referenced list is "
+                                   "copied: CopyList skips elements whose ResolveReferences throws); the copy compiles to a different "
+                                   "model: %s" % (explained[1], " ".join(items[:6])), rep)
+                items = [it for it in items if it.split(":")[0] not in ("copyspec", "copyspec0", "copycopy")]
+            for item in items[:3]:
+                ctx.oracle_failure("c33:" + item, "compile check failed (%s); all differences: %s" % (item, status[:300]), rep)
+    if model[0] is not None:
+        ctx.oblige("correspondence element survival in mj_copySpec (before and after the first compile) vs Lean SpecCopy.copySpec "
+                   "with the extracted order (%d specs)" % len(cases), "correspondence", not mism, json.dumps(mism[:3])[:1900])
+        if mism:
+            ctx.disagreements += [dict(stream="copy", line=str(x.get("features")), model=str(x.get("model_kept")),
+                                       impl=str(x.get("impl_copy"))) for x in mism[:10]]
+    ctx.oblige("reference table of the generator matches the element counts of the built spec (%d specs)" % len(cases),
+               "generator", not gen_bad, json.dumps(gen_bad[:2])[:1500])
+    ctx.oblige("generated specs compile (errors %d of %d)" % (hist["error"], len(cases)), "generator",
+               hist["error"] * 5 <= len(cases), str(ctx.extra.get("compile_errors", [])[:3]))
+    ctx.sample({"case_head": cases[0][0].split("\n")[0], "features": cases[0][3], "result": outs[0][:300]})
+    ctx.extra["compile_cases"] = hist
+    ctx.extra["compile_cases_known_lossy_reference"] = nlate
+    ctx.extra["compile_cases_with_pool_running"] = pooled
+    ctx.extra["compile_checks_per_case"] = ["twice", "copyspec0", "copyspec", "copycopy", "copymodel", "thread", "recompile",
+                                            "edit", "edit2", "undo"]
 
 
 def run(ctx):
     ctx.rule = ("pool: schedule lines `run N T | tokens` (exhaustive short schedules for small N, T; seeded random schedules with "
                 "notify picks, spurious wake-ups and non-existent thread ids; real-thread `free` runs); compile: generated specs "
-                "with 0-6 procedural meshes and 0-8 builtin textures; a case is distinct by its full text; non-trivial = accepted op")
+                "with 0-6 procedural meshes and 0-8 builtin textures plus elements of every kind / reference edge (31 features, each "
+                "forced at least once per run, histogram in compile_case_features / reference_edges_generated) and one spec per "
+                "known-lossy reference; a case is distinct by its full text; non-trivial = accepted op")
     ctx.lean_props(THEOREMS)
     drv = ctx.driver("drv_c33")
     # the harness TU #includes the tree's user_threadpool.cc: it is part of the cache key
@@ -217,48 +888,8 @@ def run(ctx):
             ctx.sample({"op": lines[len(lines) // 2][:300], "impl_and_model_trace": outs[len(lines) // 2][:600]})
         ctx.extra["pool_oracle_checked"] = len(lines)
         ctx.extra["pool_oracle_failures"] = nfail
-    # ---- S(b): compile determinism
+    # ---- T + S(b): the deep copy (element survival) and compile determinism
     if comp:
-        thorough = ctx.tier == "thorough"
-        ncase = 300 if thorough else 24
-        cases = [gen_case(ctx.rng, thorough) for _ in range(ncase)]
-        text = "".join(c[0] for c in cases)
-        r = common.sh([comp], inp=text, timeout=3000)
-        outs = r.stdout.split("\n")
-        if outs and outs[-1] == "":
-            outs.pop()
-        hist = {"ok": 0, "error": 0, "diff": 0}
-        pooled = 0
-        if r.returncode != 0 or len(outs) != len(cases):
-            hang = bool(outs) and outs[-1] == "TIMEOUT"
-            idx = min(len(outs) - (1 if hang else 0), len(cases) - 1)
-            ctx.oracle_failure("c33:compile:hang" if hang else "c33:compile:crash",
-                               ("mj_compile did not return within 120 s on case %d (asset thread pool dead-locked?)" % idx) if hang
-                               else "c33_compile crashed (rc=%s) on case %d" % (r.returncode, idx),
-                               {"case": cases[idx][0][:6000], "stderr": r.stderr[-500:],
-                                "replay": "feed the case text to <c33_compile harness>"})
-        else:
-            for (ctext, nmesh, ntex), o in zip(cases, outs):
-                ctx.count(ctext)
-                if o.startswith("ok"):
-                    hist["ok"] += 1
-                    m = re.search(r"pooltasks=(\d+)", o)
-                    if m and int(m.group(1)) >= 2:
-                        pooled += 1
-                elif o.startswith("DIFF"):
-                    hist["diff"] += 1
-                    for item in o.split()[1:4]:
-                        ctx.oracle_failure("c33:" + item, "compile check failed (%s); all differences: %s" % (item, o[:300]),
-                                           {"case": ctext[:8000], "impl_output": o,
-                                            "replay": "feed the case text to <c33_compile harness>"})
-                else:
-                    hist["error"] += 1
-                    ctx.extra.setdefault("compile_errors", []).append(o[:160])
-            ctx.oblige("generated specs compile (errors %d of %d)" % (hist["error"], len(cases)), "generator",
-                       hist["error"] * 5 <= len(cases), str(ctx.extra.get("compile_errors", [])[:3]))
-            ctx.sample({"case_head": cases[0][0].split("\n")[0], "result": outs[0]})
-        ctx.extra["compile_cases"] = hist
-        ctx.extra["compile_cases_with_pool_running"] = pooled
-        ctx.extra["compile_checks_per_case"] = ["twice", "copyspec", "copymodel", "thread", "recompile", "edit"]
+        compile_part(ctx, drv, comp)
     if ctx.tier == "thorough":
         ctx.leanchecker(["MjProof.Props.C33"])
